@@ -33,8 +33,14 @@ def to_rfc3339_opts (z : Zoned) (secform : Format.SecondsFormat) (use_z : Bool) 
   (Zoned.overflowing_naive_local z).bind fun naive =>
   expectText (Format.write_rfc3339 naive z.off secform use_z)
 
-/-- `DateTime::to_rfc3339()` = `AutoSi`, no `Z` -/
-def to_rfc3339 (z : Zoned) : Res (List Nat) := to_rfc3339_opts z .autoSi false
+/-- `DateTime::to_rfc3339()`, its own body in src/datetime/mod.rs:
+`let naive = self.overflowing_naive_local(); let offset = self.offset.fix();
+write_rfc3339(&mut result, naive, offset, SecondsFormat::AutoSi, false).expect(…)`.
+That this is `to_rfc3339_opts(AutoSi, false)` is a theorem (`Props.C10.to_rfc3339_is_opts`). -/
+def to_rfc3339 (z : Zoned) : Res (List Nat) :=
+  (Zoned.overflowing_naive_local z).bind fun naive =>
+  let offset := z.off
+  expectText (Format.write_rfc3339 naive offset .autoSi false)
 
 end Rfc3339
 end Chrono.M
